@@ -8,6 +8,7 @@ import (
 	"net"
 	"os"
 	"runtime/debug"
+	"strings"
 	"sync"
 	"syscall"
 	"time"
@@ -106,6 +107,13 @@ type Config struct {
 	// side works - the situation of a pipelining client, LISTEN/NOTIFY or a chatty server.
 	NoticeEvery time.Duration
 	NoticeBurst int // notices per write (default 16)
+	// Probes: pipelining. Each of these statements (SELECTs that return no rows, simple protocol) is run once
+	// at the start of the session, alone, and its reply kept. Afterwards every request of Simple/Extended is
+	// written together with the next probe in front of it (one write: the proxy reads the second request while
+	// the answer to the first is on its way, as with libpq's pipeline mode, pgx batches or JDBC batching); the
+	// probe's reply must equal the one it got alone (Session.ProbeDiffs lists what differed), the request's
+	// reply is returned as usual.
+	Probes []string
 }
 
 // ErrTimeout marks an I/O deadline hit: the case is inconclusive, never a violation.
@@ -147,17 +155,22 @@ func (s *Session) Panics() []string {
 }
 
 type Session struct {
-	Notices   int // background notices of the fake database dropped by collect()
-	pan       *panics
-	fe        *pgproto3.Frontend
-	clientEnd net.Conn
-	dbEnd     net.Conn
-	acraC     net.Conn
-	acraD     net.Conn
-	DB        *FakeServer
-	ProxyErrs chan base.ProxyError
-	timeout   time.Duration
-	closed    bool
+	probes     []string
+	probeRef   []*Reply
+	probeNext  int
+	ProbeDiffs []string // pipelined probe replies that differ from the probe's reply when it ran alone
+	ProbesSent int
+	Notices    int // background notices of the fake database dropped by collect()
+	pan        *panics
+	fe         *pgproto3.Frontend
+	clientEnd  net.Conn
+	dbEnd      net.Conn
+	acraC      net.Conn
+	acraD      net.Conn
+	DB         *FakeServer
+	ProxyErrs  chan base.ProxyError
+	timeout    time.Duration
+	closed     bool
 	// ClientSent / ClientRecv / DBRecv / DBSent are the raw byte streams at both ends.
 	clientTap *tap
 	dbTap     *tap
@@ -321,7 +334,85 @@ func Start(cfg Config) (*Session, error) {
 		s.Close()
 		return nil, fmt.Errorf("start-up: %w", err)
 	}
+	probes := cfg.Probes
+	if probes == nil && os.Getenv("VERIF_PG_PIPELINE") != "" && cfg.DBHandler == nil {
+		probes = AutoProbes(cfg.Tables) // experiment switch
+	}
+	var usable []string
+	var refs []*Reply
+	for _, p := range probes {
+		r, err := s.Simple(p)
+		if err != nil {
+			s.Close()
+			return nil, fmt.Errorf("probe %q alone: %w", p, err)
+		}
+		if len(r.Errors) > 0 || len(r.Rows) > 0 {
+			continue // not usable as a probe (the fake database does not interpret it, or it returns rows)
+		}
+		usable = append(usable, p)
+		refs = append(refs, r)
+	}
+	s.probes, s.probeRef = usable, refs // only now: the probes above ran alone
 	return s, nil
+}
+
+// AutoProbes makes probe statements for tables whose first column is an integer: every prefix of the column list.
+func AutoProbes(tables []TableDef) []string {
+	var out []string
+	for _, t := range tables {
+		if len(t.Cols) == 0 || (t.Cols[0].Type != Int4 && t.Cols[0].Type != Int8) {
+			continue
+		}
+		var names []string
+		for _, c := range t.Cols {
+			names = append(names, c.Name)
+			out = append(out, "SELECT "+strings.Join(names, ", ")+" FROM "+t.Name+" WHERE "+t.Cols[0].Name+" = -1")
+		}
+	}
+	return out
+}
+
+// sendProbe queues the next probe in front of the request that is being written.
+func (s *Session) sendProbe() int {
+	if len(s.probes) == 0 {
+		return -1
+	}
+	i := s.probeNext % len(s.probes)
+	s.probeNext++
+	s.ProbesSent++
+	s.fe.Send(&pgproto3.Query{String: s.probes[i]})
+	return i
+}
+
+// collectProbe reads the probe's reply and compares it with the reply the probe got alone.
+func (s *Session) collectProbe(i int) error {
+	if i < 0 {
+		return nil
+	}
+	r, err := s.collect()
+	if err != nil {
+		return err
+	}
+	ref := s.probeRef[i]
+	diff := ""
+	switch {
+	case strings.Join(r.Msgs, "") != strings.Join(ref.Msgs, ""):
+		diff = fmt.Sprintf("messages %v, alone %v (errors %v)", r.Msgs, ref.Msgs, r.Errors)
+	case len(r.Fields) != len(ref.Fields):
+		diff = fmt.Sprintf("%d fields, alone %d", len(r.Fields), len(ref.Fields))
+	default:
+		for j := range r.Fields {
+			a, b := r.Fields[j], ref.Fields[j]
+			if string(a.Name) != string(b.Name) || a.DataTypeOID != b.DataTypeOID || a.Format != b.Format || a.DataTypeSize != b.DataTypeSize || a.TypeModifier != b.TypeModifier {
+				diff = fmt.Sprintf("field %d described as %s oid=%d size=%d format=%d, alone as %s oid=%d size=%d format=%d", j, a.Name, a.DataTypeOID, a.DataTypeSize, a.Format, b.Name, b.DataTypeOID, b.DataTypeSize, b.Format)
+				break
+			}
+		}
+	}
+	if diff != "" && len(s.ProbeDiffs) < 20 {
+		s.ProbeDiffs = append(s.ProbeDiffs, fmt.Sprintf("probe %q pipelined in front of request %d: %s", s.probes[i], s.ProbesSent, diff))
+	}
+	return nil
 }
 
 // Close tears the session down.
@@ -330,6 +421,12 @@ func (s *Session) Close() {
 		return
 	}
 	s.closed = true
+	if f := os.Getenv("VERIF_PG_PIPELINE_LOG"); f != "" && len(s.ProbeDiffs) > 0 {
+		if fh, err := os.OpenFile(f, os.O_APPEND|os.O_CREATE|os.O_WRONLY, 0o644); err == nil {
+			fmt.Fprintf(fh, "%s\n", strings.Join(s.ProbeDiffs, "\n"))
+			fh.Close()
+		}
+	}
 	s.fe.Send(&pgproto3.Terminate{})
 	s.fe.Flush()
 	s.clientEnd.Close()
@@ -429,8 +526,12 @@ func (s *Session) collect() (*Reply, error) {
 // Simple sends one simple-protocol query and collects the reply.
 func (s *Session) Simple(sql string) (*Reply, error) {
 	s.clientEnd.SetDeadline(time.Now().Add(s.timeout))
+	probe := s.sendProbe()
 	s.fe.Send(&pgproto3.Query{String: sql})
 	if err := s.fe.Flush(); err != nil {
+		return nil, err
+	}
+	if err := s.collectProbe(probe); err != nil {
 		return nil, err
 	}
 	return s.collect()
@@ -453,6 +554,7 @@ type Ext struct {
 // Extended runs one extended-protocol cycle.
 func (s *Session) Extended(e Ext) (*Reply, error) {
 	s.clientEnd.SetDeadline(time.Now().Add(s.timeout))
+	probe := s.sendProbe()
 	if !e.SkipParse {
 		s.fe.Send(&pgproto3.Parse{Name: e.StmtName, Query: e.SQL, ParameterOIDs: e.ParamOIDs})
 	}
@@ -466,6 +568,9 @@ func (s *Session) Extended(e Ext) (*Reply, error) {
 	s.fe.Send(&pgproto3.Execute{Portal: e.PortalName})
 	s.fe.Send(&pgproto3.Sync{})
 	if err := s.fe.Flush(); err != nil {
+		return nil, err
+	}
+	if err := s.collectProbe(probe); err != nil {
 		return nil, err
 	}
 	return s.collect()
